@@ -7,6 +7,8 @@
                  present, legacy, ents     = content of the slot k after the call, read back by the driver
                                              with pickle alone (ents = list of [id, lg, ch, co]),
                  obs                       = dense matrix (1/8 units),
+                 tok                       = op "Observe" (k = "decode" | "alto"): digest of the transcription the page decoder
+                                             produced for line i / of the text of the ALTO export of layout L,
                  lse, shift                = get_full_logprobs: max |logsumexp(row)| and max spread of
                                              (full - dense) within a row, both in 1e-9 units.
    The statement pins save / load / dense completely except where LogitsStore leaves a choice (S, lc), so the
@@ -24,7 +26,7 @@ LcOf(ev, L) == [i \in 1..Len(lay[L]) |-> IF i <= Len(LayOf(ev)[L]) THEN <<LayOf(
 TInit == /\ tid \in 1..NTraces
          /\ lay = [n \in Names |-> IF n = "A" THEN Tr.A ELSE Tr.B]
          /\ store = [k \in Slots |-> NoStore] /\ origin = [k \in Slots |-> <<>>]
-         /\ before = lay /\ sbefore = store /\ last = Call("none", "A", "file", FALSE, "ok", 0, 0) /\ obs = <<>> /\ nops = 0
+         /\ before = lay /\ sbefore = store /\ last = Call("none", "A", "file", FALSE, "ok", 0, 0) /\ obs = <<>> /\ obsmap = {} /\ nops = 0
 
 TNext == /\ UNCHANGED tid
          /\ Tr.outcome = "ok" /\ nops < Len(Tr.events)
@@ -39,6 +41,7 @@ TNext == /\ UNCHANGED tid
                   \/ /\ ev.op = "Dense" /\ ev.status = "ok" /\ Dense(ev.L, ev.i, ev.fl)
                      /\ obs' = ev.obs
                      /\ ev.lse <= Tol /\ ev.shift <= Tol               \* row-normalised log-probabilities of the same logits
+                  \/ /\ ev.op = "Observe" /\ ev.status = "ok" /\ Observe(ev.k, ev.L, ev.i, ev.tok)
                /\ lay' = LayOf(ev)                                      \* both layouts as observed after the call
 
 TAccept == TKMark(tid, nops, nops = Len(Tr.events) /\ Tr.outcome = "ok")
